@@ -53,6 +53,11 @@ static int c20_gcunroot(const char *fn, Janet x);
 static JanetSignal c20_continue(JanetFiber *f, Janet v, Janet *out, JanetSignal sig);
 static JanetAtomicInt c20_atomic_inc(const char *fn, JanetAtomicInt volatile *p);
 static int c20_epoll_wait(int epfd, struct epoll_event *events, int maxevents, int timeout);
+static int c20_close(const char *fn, int fd);
+static void c20_mutex_init(JanetOSMutex *m);
+static void c20_mutex_deinit(JanetOSMutex *m);
+static void c20_rwlock_init(JanetOSRWLock *m);
+static void c20_rwlock_deinit(JanetOSRWLock *m);
 
 #define pthread_create(t, a, s, g) c20_pthread_create(__func__, t, a, s, g)
 #define read(fd, b, n) c20_read(__func__, fd, b, n)
@@ -62,6 +67,12 @@ static int c20_epoll_wait(int epfd, struct epoll_event *events, int maxevents, i
 #define janet_continue_signal(f, v, o, s) c20_continue(f, v, o, s)
 #define janet_atomic_inc(p) c20_atomic_inc(__func__, p)
 #define epoll_wait(a, b, c, d) c20_epoll_wait(a, b, c, d)
+#define close(fd) c20_close(__func__, fd)
+/* channels, locks and rwlocks (the shared, reference-counted abstracts of ev.c) are created / finalised through these */
+#define janet_os_mutex_init(m) c20_mutex_init(m)
+#define janet_os_mutex_deinit(m) c20_mutex_deinit(m)
+#define janet_os_rwlock_init(m) c20_rwlock_init(m)
+#define janet_os_rwlock_deinit(m) c20_rwlock_deinit(m)
 /* external callers of the refcount API (gc.c: a fiber with ev_state is collected) go through our definitions */
 #define janet_ev_dec_refcount janet_ev_dec_refcount_INNER
 #define janet_ev_inc_refcount janet_ev_inc_refcount_INNER
@@ -76,6 +87,11 @@ static int c20_epoll_wait(int epfd, struct epoll_event *events, int maxevents, i
 #undef janet_continue_signal
 #undef janet_atomic_inc
 #undef epoll_wait
+#undef close
+#undef janet_os_mutex_init
+#undef janet_os_mutex_deinit
+#undef janet_os_rwlock_init
+#undef janet_os_rwlock_deinit
 #undef janet_ev_dec_refcount
 #undef janet_ev_inc_refcount
 
@@ -91,9 +107,11 @@ static volatile int loop_finished = 0;
 static int watchdog_secs = 120;
 
 #define IS_MAIN() (main_vm != NULL && &janet_vm == main_vm)
-typedef struct { long susp, lis, inpipe, calls, fibers; } Truth;
+typedef struct { long susp, lis, inpipe, calls, fibers, lisclosed; } Truth;
 static Truth ground_truth(void);
 static __thread int c20_posting = 0;
+/* set between the collector's mark and the end of its sweep (finalisers close descriptors too; only explicit closes are logged) */
+static int c20_in_sweep = 0;
 
 static void out(const char *fmt, ...) {
     va_list ap;
@@ -311,6 +329,7 @@ static JanetAtomicInt c20_atomic_inc(const char *fn, JanetAtomicInt volatile *p)
 }
 
 static void c20_gcroot(const char *fn, Janet x) {
+    if (IS_MAIN()) c20_in_sweep = 0;
     if (IS_MAIN() && opt_events) {
         if (!strcmp(fn, "janet_async_start_fiber")) out("E astart\n");
         else out("E root %s\n", fn);
@@ -319,6 +338,7 @@ static void c20_gcroot(const char *fn, Janet x) {
 }
 
 static int c20_gcunroot(const char *fn, Janet x) {
+    if (IS_MAIN()) c20_in_sweep = 0;
     int r = janet_gcunroot(x);
     if (IS_MAIN() && opt_events) {
         if (!strcmp(fn, "janet_async_end")) out("E aend %d\n", r);
@@ -328,6 +348,7 @@ static int c20_gcunroot(const char *fn, Janet x) {
 }
 
 static JanetSignal c20_continue(JanetFiber *f, Janet v, Janet *o, JanetSignal sig) {
+    if (IS_MAIN()) c20_in_sweep = 0;
     if (IS_MAIN() && opt_events) {
         observe_timers(0);
         expect_pop = f;
@@ -350,6 +371,7 @@ static JanetSignal c20_continue(JanetFiber *f, Janet v, Janet *o, JanetSignal si
 }
 
 static int c20_epoll_wait(int epfd, struct epoll_event *events, int maxevents, int timeout) {
+    if (IS_MAIN()) c20_in_sweep = 0;
     if (IS_MAIN() && opt_events) {
         pthread_mutex_lock(&c20_mu);
         observe_timers(2);
@@ -357,6 +379,18 @@ static int c20_epoll_wait(int epfd, struct epoll_event *events, int maxevents, i
         out("E poll\n");
         fflush(stdout);
         pthread_mutex_unlock(&c20_mu);
+    }
+    if (IS_MAIN() && (opt_snap || opt_idle) && count_stale_timers() == janet_vm.tq_count) {
+        /* about to block with no live timer: if no event can be in flight (self pipe empty, no helper thread running) and
+         * every stream listener sits on a closed descriptor, nothing can ever wake the loop again although tasks are waiting */
+        Truth t = ground_truth();
+        if (t.inpipe + t.calls == 0 && t.lis == t.lisclosed && t.susp + t.lis > 0) {
+            pthread_mutex_lock(&c20_mu);
+            out("NO-WAKE-SOURCE step=%ld lc=%d suspended=%ld listeners=%ld listeners-on-closed-streams=%ld tq=%zu (all stale)\n", c20_step,
+                (int) janet_atomic_load(&janet_vm.listener_count), t.susp, t.lis, t.lisclosed, janet_vm.tq_count);
+            fflush(stdout);
+            _exit(6);
+        }
     }
     if (IS_MAIN() && (opt_snap || opt_idle) && janet_vm.tq_count == 0) {
         /* about to block without a timer: somebody must be able to wake the loop up */
@@ -383,6 +417,29 @@ static int c20_epoll_wait(int epfd, struct epoll_event *events, int maxevents, i
     return epoll_wait(epfd, events, maxevents, timeout);
 }
 
+/* process-wide count of live channels / locks / rwlocks (all threads): created minus finalised */
+static JanetAtomicInt n_shared_live = 0;
+static void c20_mutex_init(JanetOSMutex *m) { janet_atomic_inc(&n_shared_live); janet_os_mutex_init(m); }
+static void c20_mutex_deinit(JanetOSMutex *m) { janet_atomic_dec(&n_shared_live); janet_os_mutex_deinit(m); }
+static void c20_rwlock_init(JanetOSRWLock *m) { janet_atomic_inc(&n_shared_live); janet_os_rwlock_init(m); }
+static void c20_rwlock_deinit(JanetOSRWLock *m) { janet_atomic_dec(&n_shared_live); janet_os_rwlock_deinit(m); }
+
+/* close(2) inside janet_stream_close_impl: the CLOSE notifications have been delivered by now; any fiber that still has a
+ * callback installed on this descriptor has been left behind (it can never be woken again) */
+static int c20_close(const char *fn, int fd) {
+    if (IS_MAIN() && opt_events && !strcmp(fn, "janet_stream_close_impl") && !c20_in_sweep) {
+        long orphans = 0;
+        for (JanetGCObject *o = janet_vm.blocks; o; o = o->data.next) {
+            if ((o->flags & JANET_MEM_TYPEBITS) == JANET_MEMORY_FIBER) {
+                JanetFiber *f = (JanetFiber *) o;
+                if (f->ev_callback && f->ev_stream && f->ev_stream->handle == fd) orphans++;
+            }
+        }
+        out("E sclose %ld\n", orphans);
+    }
+    return close(fd);
+}
+
 /* public refcount API for callers outside ev.c */
 void janet_ev_inc_refcount(void) {
     if (IS_MAIN()) {
@@ -404,6 +461,7 @@ void janet_ev_dec_refcount(void) {
 extern void (*janet_verif_gc_midpoint)(void);
 static void c20_midpoint(void) {
     if (!IS_MAIN()) return;
+    c20_in_sweep = 1;
     for (JanetGCObject *o = janet_vm.blocks; o; o = o->data.next) {
         if ((o->flags & JANET_MEM_TYPEBITS) == JANET_MEMORY_FIBER && !(o->flags & JANET_MEM_REACHABLE)) {
             JanetFiber *f = (JanetFiber *) o;
@@ -424,13 +482,17 @@ static void c20_midpoint(void) {
 /* caller holds c20_mu: the self-pipe fill, the helper-thread counters and listener_count are then mutually consistent
  * (posting threads hold the mutex from the increment until the event is in the pipe) */
 static Truth ground_truth_locked(void) {
-    Truth t = {0, 0, 0, 0, 0};
+    Truth t = {0, 0, 0, 0, 0, 0};
     for (JanetGCObject *o = janet_vm.blocks; o; o = o->data.next) {
         if ((o->flags & JANET_MEM_TYPEBITS) == JANET_MEMORY_FIBER) {
             JanetFiber *f = (JanetFiber *) o;
             t.fibers++;
             if (f->gc.flags & JANET_FIBER_EV_FLAG_SUSPENDED) t.susp++;
-            if (f->ev_callback) t.lis++;
+            if (f->ev_callback) {
+                t.lis++;
+                /* a listener on a stream that has been closed can never be woken by the kernel */
+                if (f->ev_stream && (f->ev_stream->flags & JANET_STREAM_CLOSED)) t.lisclosed++;
+            }
         }
     }
     int nbytes = 0;
@@ -498,9 +560,9 @@ static long count_threads(void) {
 static void snapshot(const char *tag) {
     pthread_mutex_lock(&c20_mu);
     Truth t = ground_truth_locked();
-    out("S %ld %s lc=%d tq=%zu rq=%d roots=%zu stale=%zu done=%d | susp=%ld lis=%ld inpipe=%ld calls=%ld nullev=%ld\n",
+    out("S %ld %s lc=%d tq=%zu rq=%d roots=%zu stale=%zu done=%d | susp=%ld lis=%ld inpipe=%ld calls=%ld nullev=%ld lisclosed=%ld\n",
         c20_step, tag, (int) janet_atomic_load(&janet_vm.listener_count), janet_vm.tq_count, (int) janet_q_count(&janet_vm.spawn),
-        janet_vm.root_count, count_stale_timers(), janet_loop_done(), t.susp, t.lis, t.inpipe, t.calls, n_delivered_null);
+        janet_vm.root_count, count_stale_timers(), janet_loop_done(), t.susp, t.lis, t.inpipe, t.calls, n_delivered_null, t.lisclosed);
     pthread_mutex_unlock(&c20_mu);
 }
 
@@ -520,14 +582,15 @@ static Janet cfun_measure(int32_t argc, Janet *argv) {
     const uint8_t *s = janet_to_string(argv[0]);
     janet_collect();
     janet_collect();
+    c20_in_sweep = 0;
     long nchild, nz;
     count_children(&nchild, &nz);
     Truth t = ground_truth();
     pthread_mutex_lock(&c20_mu);
-    out("MEASURE %s fds=%ld children=%ld zombies=%ld roots=%zu blocks=%zu lc=%d tq=%zu rq=%d threads=%ld fibers=%ld scratch=%zu\n",
+    out("MEASURE %s fds=%ld children=%ld zombies=%ld roots=%zu blocks=%zu lc=%d tq=%zu rq=%d threads=%ld fibers=%ld scratch=%zu shared=%d\n",
         (const char *) s, count_fds(), nchild, nz, janet_vm.root_count, janet_vm.block_count,
         (int) janet_atomic_load(&janet_vm.listener_count), janet_vm.tq_count, (int) janet_q_count(&janet_vm.spawn),
-        count_threads(), t.fibers, janet_vm.scratch_len);
+        count_threads(), t.fibers, janet_vm.scratch_len, (int) janet_atomic_load(&n_shared_live));
     fflush(stdout);
     pthread_mutex_unlock(&c20_mu);
     return janet_wrap_nil();
@@ -558,7 +621,15 @@ static Janet cfun_interrupt(int32_t argc, Janet *argv) {
     return janet_wrap_nil();
 }
 
+/* (c20/pending stream) -> number of fibers parked on the stream (0, 1 or 2: read side, write side) */
+static Janet cfun_pending(int32_t argc, Janet *argv) {
+    janet_fixarity(argc, 1);
+    JanetStream *st = janet_getabstract(argv, 0, &janet_stream_type);
+    return janet_wrap_integer((st->read_fiber != NULL) + (st->write_fiber != NULL));
+}
+
 static const JanetReg c20_cfuns[] = {
+    {"c20/pending", cfun_pending, NULL},
     {"c20/log", cfun_log, NULL},
     {"c20/measure", cfun_measure, NULL},
     {"c20/stats", cfun_stats, NULL},
